@@ -11,6 +11,7 @@
 From P2 Require Import Base.Prelude Heap.ListHeap Heap.ListHeapProofs Heap.FuncState Heap.FuncStateProofs.
 From P2 Require Import Sem.Num Sem.Syntax Sem.Ops Sem.Lib Sem.Ref Sem.Gen Sem.Sim Heap.FuncStackProofs.
 From P2 Require Lib.Stream Lib.Iterate Lib.IterateProofs.
+From P2 Require Import Heap.MapHeap Heap.MapHeapProofs Heap.MapState Heap.MapStateProofs.
 
 (* an evaluation is a sequence of heap steps whose outcome is determined by (F, args, j) and the CONTENT of the
    constants - never by their representation (itemsPresent / len / cap / which array): started in ANY heap h2
@@ -56,6 +57,18 @@ Theorem C10_failing_eval_changes_nothing : forall R a mk (k : option nat -> scri
   poisoned (icontent h a) = true ->
   match alloc_eval a mk k with Do f => f h = (h, k None) | Done _ => False end.
 Proof. exact failing_eval_changes_nothing_lemma. Qed.
+
+(* the MAP fragment (Heap/MapState.v: map constants folded at Generate time by MapHeap operations - literal, put, +,
+   replace, map, accept, eval; put / + / field access / size at run time): an evaluation performs no heap step, its
+   outcome is a function of what its constant maps show, and - MapHeap's persistence, C09 - it is the same after ANY
+   sequence of map operations on the generator's map heap (other evaluations, other functions, further Generate calls) *)
+Theorem C10_map_eval_history_independent : forall h ops cs args b, mwf h -> consts_of h cs ->
+  meval_on (fold_left mstep ops h) cs args b = meval_on h cs args b.
+Proof. exact map_eval_history_independent_lemma. Qed.
+
+Theorem C10_map_generated_history_independent : forall p h ops args, mgenerate p = Some h ->
+  meval_on (fold_left mstep ops h) (mh_maps h) args (mp_body p) = meval_on h (mh_maps h) args (mp_body p).
+Proof. exact map_generated_history_independent_lemma. Qed.
 
 (* traversal state is per ITERATION, not per list value (Lib/Stream.v pipelines: map, accept, combine, number,
    iir, compact, skip, top over numbers / literals / +; consumers first, single, size, present, indexWhere, ~,
@@ -133,6 +146,8 @@ Print Assumptions C10_reachable_states_ok.
 Print Assumptions C10_generated_function_meets_spec.
 Print Assumptions C10_generate_does_not_disturb.
 Print Assumptions C10_failing_eval_changes_nothing.
+Print Assumptions C10_map_eval_history_independent.
+Print Assumptions C10_map_generated_history_independent.
 Print Assumptions C10_iterate_twice_same.
 Print Assumptions C10_iterate_state_not_kept.
 Print Assumptions C10_iterate_shared_state_discriminates.
